@@ -128,6 +128,19 @@ func c17(c *Ctx) {
 				if !(br.Kind == core.KParam && br.Ref == nc.Params[5]) {
 					ok, why = false, "newConn replaces the reader it was given (bytes buffered in it are lost)"
 				}
+				// nothing may consume or drop what the given reader holds: no method is called on it here
+				for i := range p.Events {
+					ev := &p.Events[i]
+					if ev.Kind == core.EvCall && ev.Static != nil && !c.P.InPkg(ev.Static) && len(ev.Args) > 0 {
+						if a := strip(ev.Args[0]); a.Kind == core.KParam && a.Ref == nc.Params[5] {
+							switch extName(ev.Static) {
+							case "(*bufio.Reader).Size", "(*bufio.Reader).Buffered":
+							default:
+								ok, why = false, "newConn calls "+extName(ev.Static)+" on the reader it was given at "+c.P.Pos(ev.Instr.Pos())+": bytes the client sent ahead of the handshake reply are buffered in it and would be discarded or consumed"
+							}
+						}
+					}
+				}
 				return
 			}
 			good := br.Kind == core.KCall && len(br.Args) >= 1 && strip(br.Args[0]).Kind == core.KParam && strip(br.Args[0]).Ref == nc.Params[0]
